@@ -846,6 +846,136 @@ theorem C02_shell_flush_exact (s : Sys.Sys F) (now j : Nat) (l : FLink F) (hl : 
     rw [flushGo_links, List.getElem?_map, hl]
     exact ⟨_, rfl, (key l).1, (key l).2⟩
 
+/-! ### A client datagram, exactly
+
+`C02_shell_refines_event` is WEAK for `client` events: `kopOk (evOps s (.client …) j)` admits any list of `send`s
+(with arbitrary arguments) and `reset`s on any link.  The exact statement follows: the block of set operations is a
+FUNCTION of the pre-state (`SysDir.clientBlock`). -/
+
+/-- **A client event registers exactly what it drains.**  Conn ids pairwise distinct (`Sys.Inv`, an invariant of
+every run).  With `app = Sys.appended s (.client now pkt) j` — what the event appends to link `j`'s batch queue: the
+unique copy `[(pkt, seq, now)]` on the chosen link, one probe copy on a stall-gated connected link whose 1-in-100
+counter fires, `[]` on every other link (closed form: `C01_exactly_one_unique_copy`) — link `j`'s key list
+afterwards is
+* unchanged when nothing is appended (every link other than the chosen one and the probe links);
+* unchanged when the queue with the new datagram stays below the regime threshold (queued is NOT sent);
+* `[]` when the threshold is reached and an injected send failure is pending for this link's conn id: the batch is
+  drained, the send fails, `mark_for_recovery` resets the link — and the injection is CONSUMED by this event
+  (last conjunct: the conn id occurs strictly fewer times in `failNext` afterwards);
+* the old key list with the sequence numbers of the WHOLE queue (old content, then the new datagram) inserted, once
+  each, in queue order, when the threshold is reached and the send succeeds — a probe link likewise, with its own
+  queue.
+Third conjunct: the same as a fold of the per-link set machine over `SysDir.clientBlock s now pkt j`. -/
+theorem C02_shell_client_exact (s : Sys.Sys F) (now : Nat) (pkt : Sys.Bytes) (hnd : (Sys.ids s.links).Nodup)
+    (j : Nat) (l : FLink F) (hl : s.links[j]? = some l) :
+    ∃ l', (Sys.step s (.client now pkt)).1.links[j]? = some l' ∧
+      l'.core.keys =
+        (if Sys.appended s (.client now pkt) j = [] then l.core.keys
+         else if (l.queue ++ Sys.appended s (.client now pkt) j).length < l.regime.batchSize then l.core.keys
+         else if l.core.connId ∈ s.failNext then []
+         else (batchSeqs (l.queue ++ Sys.appended s (.client now pkt) j)).foldl specRegister l.core.keys) ∧
+      l'.core.keys = (clientBlock s now pkt j).foldl kstep l.core.keys ∧
+      (Sys.appended s (.client now pkt) j ≠ [] →
+        l.regime.batchSize ≤ (l.queue ++ Sys.appended s (.client now pkt) j).length → l.core.connId ∈ s.failNext →
+        (Sys.step s (.client now pkt)).1.failNext.count l.core.connId < s.failNext.count l.core.connId) := by
+  obtain ⟨l', h1, h2, h3⟩ := client_keys_exact s now pkt hnd j l hl
+  have hb : Sys.appended s (.client now pkt) j ≠ [] → (Sys.appended s (.client now pkt) j).isEmpty = false := by
+    intro ha
+    cases h : Sys.appended s (.client now pkt) j with
+    | nil => exact absurd h ha
+    | cons a t => rfl
+  refine ⟨l', h1, ?_, h2, fun ha hthr hc => h3 ?_⟩
+  · rw [h2]
+    unfold clientBlock
+    rw [hl]
+    dsimp only
+    by_cases ha : Sys.appended s (.client now pkt) j = []
+    · rw [if_pos ha, ha]; rfl
+    · rw [if_neg ha, hb ha]
+      simp only [Bool.false_eq_true, if_false]
+      split
+      · rfl
+      · split
+        · rfl
+        · exact foldl_sends _ _
+  · unfold clientBlock
+    rw [hl]
+    dsimp only
+    rw [hb ha]
+    simp only [Bool.false_eq_true, if_false]
+    rw [if_neg (by omega), if_pos hc]
+
+/-- The shell-visible history of link `j` along a run, with EXACT blocks for the data-path events: a `client` event
+contributes `SysDir.clientBlock` (a function of the state the run had reached: nothing / one `reset` / the sends of
+the drained batch), a `flush` event contributes `SysDir.flushBlock` (the sends of the drained queue); every other
+event a block allowed by `kopOk (evOps s e j)` as in `RunHist` (`C02_shell_event_kinds`: housekeeping — at most
+resets; uplink datagrams — cumulative ACKs / single retirements / a reset of the arrival link by type code,
+exactly attributed by `C02_shell_uplink_refines`; the six remaining constructors — nothing). -/
+inductive RunHistX : Sys.Sys F → List Sys.Ev → Nat → List KOp → Prop
+  | nil (s : Sys.Sys F) (j : Nat) : RunHistX s [] j []
+  | client {s : Sys.Sys F} {now : Nat} {pkt : Sys.Bytes} {evs : List Sys.Ev} {j : Nat} {rest : List KOp} :
+      RunHistX (Sys.step s (.client now pkt)).1 evs j rest →
+      RunHistX s (.client now pkt :: evs) j (clientBlock s now pkt j ++ rest)
+  | flush {s : Sys.Sys F} {now : Nat} {evs : List Sys.Ev} {j : Nat} {rest : List KOp} :
+      RunHistX (Sys.step s (.flush now)).1 evs j rest →
+      RunHistX s (.flush now :: evs) j (flushBlock s j ++ rest)
+  | other {s : Sys.Sys F} {e : Sys.Ev} {evs : List Sys.Ev} {j : Nat} {ks rest : List KOp} :
+      (∀ now pkt, e ≠ .client now pkt) → (∀ now, e ≠ .flush now) →
+      (∀ k ∈ ks, kopOk (evOps s e j) k) → RunHistX (Sys.step s e).1 evs j rest →
+      RunHistX s (e :: evs) j (ks ++ rest)
+
+/-- **C02 at shell level, every run, exact data path.**  As `C02_shell_refines`, from any state that satisfies the
+accounting invariant and has pairwise distinct conn ids (both hold initially and along every run), with the
+history `RunHistX`: the blocks of `client` and `flush` events are DETERMINED by the state the run had reached —
+no unconstrained `send` / `reset` arguments. -/
+theorem C02_shell_refines_exact (s : Sys.Sys F) (evs : List Sys.Ev) (hinv : ShellInv s)
+    (hnd : (Sys.ids s.links).Nodup) (j : Nat) (l : FLink F) (hl : s.links[j]? = some l) :
+    ∃ l' hist, (Sys.run s evs).1.links[j]? = some l' ∧ RunHistX s evs j hist ∧
+      l'.core.keys = hist.foldl kstep l.core.keys ∧
+      l'.core.inFlight = (l'.core.keys.length : Int) ∧ 0 ≤ l'.core.inFlight ∧ l'.core.keys.Nodup := by
+  induction evs generalizing s l with
+  | nil =>
+    obtain ⟨hi, -, -, -, -⟩ := hinv l (List.mem_of_getElem? hl)
+    exact ⟨l, [], hl, .nil s j, rfl, hi.count, by rw [hi.count]; exact Int.natCast_nonneg _, hi.nodup⟩
+  | cons e evs ih =>
+    have hnd' : (Sys.ids (Sys.step s e).1.links).Nodup := by rw [Sys.step_ids s e hnd]; exact hnd
+    have other : (∀ now pkt, e ≠ .client now pkt) → (∀ now, e ≠ .flush now) →
+        ∃ l' hist, (Sys.run s (e :: evs)).1.links[j]? = some l' ∧ RunHistX s (e :: evs) j hist ∧
+          l'.core.keys = hist.foldl kstep l.core.keys ∧
+          l'.core.inFlight = (l'.core.keys.length : Int) ∧ 0 ≤ l'.core.inFlight ∧ l'.core.keys.Nodup := by
+      intro hc hf
+      obtain ⟨l1, hl1, kops, hk1, hk2, -, -⟩ := C02_shell_refines_event s e hinv j l hl
+      obtain ⟨l', hist, h1, h2, h3, h4, h5, h6⟩ := ih (Sys.step s e).1 (hinv.step e) hnd' l1 hl1
+      refine ⟨l', kops ++ hist, h1, .other hc hf hk1 h2, ?_, h4, h5, h6⟩
+      rw [List.foldl_append, ← hk2]
+      exact h3
+    cases e with
+    | client now pkt =>
+      obtain ⟨l1, hl1, hk, -⟩ := client_keys_exact s now pkt hnd j l hl
+      obtain ⟨l', hist, h1, h2, h3, h4, h5, h6⟩ := ih _ (hinv.step _) hnd' l1 hl1
+      refine ⟨l', clientBlock s now pkt j ++ hist, h1, .client h2, ?_, h4, h5, h6⟩
+      rw [List.foldl_append, ← hk]
+      exact h3
+    | flush now =>
+      obtain ⟨l1, hl1, hk, -⟩ := C02_shell_flush_exact s now j l hl
+      obtain ⟨l', hist, h1, h2, h3, h4, h5, h6⟩ := ih _ (hinv.step _) hnd' l1 hl1
+      refine ⟨l', flushBlock s j ++ hist, h1, .flush h2, ?_, h4, h5, h6⟩
+      have hb : (flushBlock s j).foldl kstep l.core.keys = l1.core.keys := by
+        unfold flushBlock
+        rw [hl]
+        dsimp only
+        rw [foldl_sends, hk]
+      rw [List.foldl_append, hb]
+      exact h3
+    | uplink now cid data => exact other (fun _ _ h => by cases h) (fun _ h => by cases h)
+    | hk now => exact other (fun _ _ h => by cases h) (fun _ h => by cases h)
+    | setCfg cfg => exact other (fun _ _ h => by cases h) (fun _ h => by cases h)
+    | crit d => exact other (fun _ _ h => by cases h) (fun _ h => by cases h)
+    | failNext c => exact other (fun _ _ h => by cases h) (fun _ h => by cases h)
+    | failBind c => exact other (fun _ _ h => by cases h) (fun _ h => by cases h)
+    | stamp idx w ld ccb cct => exact other (fun _ _ h => by cases h) (fun _ h => by cases h)
+    | syncTimeout => exact other (fun _ _ h => by cases h) (fun _ h => by cases h)
+
 /-! ### An uplink datagram, exactly, in C02's global spec machine -/
 
 /-- The state of the fan-out layer inside a shell state: the link cores and the sequence tracker. -/
@@ -1210,6 +1340,42 @@ example (now cid : Nat) (data : Sys.Bytes) (idx : Nat)
   C02_shell_uplink_refines exShell now cid data idx exShell_inv hidx
 
 example := C02_shell_flush_exact exShell 5000 0 _ rfl
+
+/-- `C02_shell_client_exact` / `SysDir.clientBlock` on `exShell` (link 0: low-activity regime, threshold 4, three
+data packets 9, 10, 11 queued; conn ids 1, 2 distinct).  The data packet 12 is routed to link 0 and reaches the
+threshold: the block is the four sends in queue order; with an injected failure for conn id 1 it is the single
+`reset` (and the injection is consumed: `failNext` `[1]` → `[]`); link 1 gets nothing in both cases: no operation.
+A data packet arriving while only TWO are queued stays below the threshold: no operation — queued, not in the
+set. -/
+example :
+    let pkt : Sys.Bytes := [0, 0, 0, 12, 0, 0, 0, 0, 1, 2]
+    let sF := (Sys.step exShell (.failNext 1)).1
+    let s2 : Sys.Sys Int := { exShell with links := exShell.links.map fun l => { l with queue := l.queue.take 2 } }
+    (Sys.ids exShell.links).Nodup ∧
+    Sys.appended exShell (.client 5000 pkt) 0 = [(pkt, some 12, 5000)] ∧ Sys.appended exShell (.client 5000 pkt) 1 = [] ∧
+    clientBlock exShell 5000 pkt 0 = [.send 9, .send 10, .send 11, .send 12] ∧ clientBlock exShell 5000 pkt 1 = [] ∧
+    clientBlock sF 5000 pkt 0 = [.reset] ∧ clientBlock sF 5000 pkt 1 = [] ∧
+    sF.failNext = [1] ∧ (Sys.step sF (.client 5000 pkt)).1.failNext = [] ∧
+    clientBlock s2 5000 pkt 0 = [] ∧ exKeys (Sys.step s2 (.client 5000 pkt)).1 = [([5, 7], 2, 3), ([7], 1, 0)] := by
+  decide +kernel
+
+example (now : Nat) (pkt : Sys.Bytes) (j : Nat) (l : FLink Int) (hl : exShell.links[j]? = some l) :=
+  C02_shell_client_exact exShell now pkt (by decide) j l hl
+
+example (evs : List Sys.Ev) (j : Nat) (l : FLink Int) (hl : exShell.links[j]? = some l) :=
+  C02_shell_refines_exact exShell evs exShell_inv (by decide) j l hl
+
+/-- An exact history (`RunHistX`) for link 0 over the run [client 12, NAK of 5, flush]: the client block is the
+four sends of the drained batch, the NAK block (an `other` event) one retirement, the flush block is empty (the
+queue is empty by then). -/
+example :
+    let pkt : Sys.Bytes := [0, 0, 0, 12, 0, 0, 0, 0, 1, 2]
+    let evs : List Sys.Ev := [.client 5000 pkt, .uplink 5001 1 [0x80, 0x03, 0, 0, 0, 0, 0, 5], .flush 5010]
+    clientBlock exShell 5000 pkt 0 ++ [KOp.retire 5] ++ flushBlock (Sys.run exShell (evs.take 2)).1 0 =
+      [.send 9, .send 10, .send 11, .send 12, .retire 5] ∧
+    [KOp.send 9, .send 10, .send 11, .send 12, .retire 5].foldl kstep [5, 7] = [7, 9, 10, 11, 12] ∧
+    ((Sys.run exShell evs).1.links.map (·.core.keys)) = [[7, 9, 10, 11, 12], [7]] := by
+  decide +kernel
 
 /-- A shell-visible history (`RunHist`) for link 0 over the run [flush, NAK of 5]: the flush block is the three
 sends, the NAK block one retirement; its fold over the initial set [5, 7] is the final set [7, 9, 10, 11]. -/
